@@ -60,9 +60,11 @@ theorem two_bytes (v : Bytes) (i : Nat) (h : i + 2 ≤ v.length) :
     (v.drop i).take 2 = [v.getD i 0, v.getD (i + 1) 0] := by
   have h0 : i < v.length := by omega
   have h1 : i + 1 < v.length := by omega
-  rw [List.drop_eq_getElem_cons h0, List.take_succ_cons, List.drop_eq_getElem_cons h1,
-    List.take_succ_cons, List.take_zero]
-  simp [List.getD_eq_getElem?_getD, h0, h1]
+  have e : v.drop i = v[i] :: v[i+1] :: v.drop (i+2) := by
+    rw [List.drop_eq_getElem_cons h0, List.drop_eq_getElem_cons h1]
+  rw [e]
+  simp only [List.take_succ_cons, List.take_zero, List.getD_eq_getElem?_getD,
+    List.getElem?_eq_getElem h0, List.getElem?_eq_getElem h1, Option.getD_some]
 
 theorem uint16_two (a b : UInt8) (t : Bytes) : uint16 { vis := [a, b], tail := t } = .ok (be16 a b) := by
   simp [uint16, GSlice.index, Gp.index, bind, Res.bind, pure]
